@@ -143,7 +143,30 @@ pub fn settings_of(req: &Sx) -> (Vec<String>, Vec<String>) {
     (s, n)
 }
 
+fn files_at(req: &Sx, idx: usize) -> Vec<(String, String)> {
+    req.as_list()[idx].as_list().iter().map(|f| (f.as_list()[0].as_str().to_string(), f.as_list()[1].as_str().to_string())).collect()
+}
+
+fn outcome_sx(o: Outcome) -> Sx {
+    match o {
+        Outcome::Js(code) => list(vec![atom("js"), st(&code)]),
+        Outcome::Diags(ds) => {
+            let mut v = vec![atom("diags")];
+            v.extend(ds);
+            list(v)
+        }
+        Outcome::ParseFail(m) => list(vec![atom("parse-fail"), st(&m.chars().take(200).collect::<String>())]),
+        Outcome::EmitErr(m) => list(vec![atom("emit-error"), st(&m)]),
+    }
+}
+
 pub fn run(req: &Sx) -> (Sx, Sx) {
+    if req.head() == "rewrite" {
+        // (rewrite id p files values p' files' script): compile both programs
+        let a = compile_files(&files_at(req, 3), &[], &[], None);
+        let b = compile_files(&files_at(req, 6), &[], &[], None);
+        return (list(vec![atom("pair"), outcome_sx(a), outcome_sx(b)]), list(vec![atom("oracle"), atom("ok")]));
+    }
     let files = files_of(req);
     let (s, n) = settings_of(req);
     let ok = list(vec![atom("oracle"), atom("ok")]);
